@@ -130,6 +130,12 @@ func cmdCheck(args []string) int {
 	}
 	var violations []*ReplayInfo
 	var pending []*ReplayInfo
+	type buildJob struct {
+		u      *Unit
+		o      *Obligation
+		prefix string
+	}
+	var toBuild []buildJob
 	var knownHit []string
 	total, discharged := 0, 0
 	solverCount := map[string]int{}
@@ -159,6 +165,34 @@ func cmdCheck(args []string) int {
 		report(&ReplayInfo{Property: cfg.ID, Obligation: key + "/unit-exists", Kind: "unit-exists", Function: key,
 			SolverSays: "n/a", Reason: "the function under contract no longer exists, so its contract cannot be checked"})
 	}
+	retried := map[*OblResult]SolveResult{}
+	{
+		var rwg sync.WaitGroup
+		rsem := make(chan struct{}, 5)
+		for _, j := range jobs {
+			for _, r := range j.res {
+				for _, o := range r.Obligations {
+					if o.Status == "undecided" {
+						if _, isKnown := known[o.Name]; isKnown {
+							continue
+						}
+						o, u := o, r.unit
+						rwg.Add(1)
+						go func() {
+							defer rwg.Done()
+							rsem <- struct{}{}
+							defer func() { <-rsem }()
+							rr := Solve(u.script(o.obl, u.finalActive), nil, eng.timeoutS*2, false)
+							mu.Lock()
+							retried[o] = rr
+							mu.Unlock()
+						}()
+					}
+				}
+			}
+		}
+		rwg.Wait()
+	}
 	for _, j := range jobs {
 		for _, r := range j.res {
 			u := r.unit
@@ -174,6 +208,11 @@ func cmdCheck(args []string) int {
 			}
 			for _, n := range r.Unsupported {
 				unsupported = append(unsupported, r.Func+": "+n)
+			}
+			if len(r.Unsupported) > 0 {
+				// a function under contract left the supported subset: its obligations are undecided
+				pending = append(pending, &ReplayInfo{Property: cfg.ID, Obligation: r.Func + "/supported-subset", Kind: "supported-subset",
+					Function: r.Func, SolverSays: "undecided", Reason: "the function under contract uses a construct outside the verifier's subset, so its contract is no longer proved: " + strings.Join(r.Unsupported, "; ")})
 			}
 			if strings.HasPrefix(r.Vacuity, "VACUOUS") {
 				fmt.Printf("ENGINE-ERROR: %s: %s\n", r.Func, r.Vacuity)
@@ -203,14 +242,14 @@ func cmdCheck(args []string) int {
 						knownHit = append(knownHit, fmt.Sprintf("KNOWN-FINDING: property=%s %s (%s)", cfg.ID, o.Name, what))
 						continue
 					}
-					pending = append(pending, u.buildReplay(o.obl, cfg.ID, 30))
+					toBuild = append(toBuild, buildJob{u, o.obl, ""})
 				default: // undecided
 					if what, ok := known[o.Name]; ok {
 						knownHit = append(knownHit, fmt.Sprintf("KNOWN-FINDING: property=%s %s (%s)", cfg.ID, o.Name, what))
 						continue
 					}
-					// retry once with a longer limit
-					rr := Solve(u.script(o.obl, u.finalActive), nil, eng.timeoutS*3, false)
+					// retried (once, longer limit) in parallel before classification
+					rr := retried[o]
 					if rr.Status == "unsat" {
 						discharged++
 						solverCount[rr.Solver]++
@@ -219,13 +258,11 @@ func cmdCheck(args []string) int {
 					}
 					o.obl.Status, o.obl.Solver, o.obl.Output = rr.Status, rr.Solver, rr.Output
 					if rr.Status == "sat" {
-						pending = append(pending, u.buildReplay(o.obl, cfg.ID, 30))
+						toBuild = append(toBuild, buildJob{u, o.obl, ""})
 						continue
 					}
 					if base.Obligations[o.Name] == "discharged" {
-						ri := u.buildReplay(o.obl, cfg.ID, 30)
-						ri.Reason = strings.TrimSpace("obligation was discharged on the unchanged tree and is now undecided (" + rr.Status + "); " + ri.Reason)
-						pending = append(pending, ri)
+						toBuild = append(toBuild, buildJob{u, o.obl, "obligation was discharged on the unchanged tree and is now undecided (" + rr.Status + "); "})
 					} else {
 						notProved = append(notProved, o.Name+": "+o.Detail)
 						fmt.Printf("NOT-PROVED property=%s obligation=%q (%s; not in the baseline, not counted as a violation)\n", cfg.ID, o.Name, rr.Status)
@@ -233,6 +270,27 @@ func cmdCheck(args []string) int {
 				}
 			}
 		}
+	}
+	{
+		built := make([]*ReplayInfo, len(toBuild))
+		var bwg sync.WaitGroup
+		bsem := make(chan struct{}, 6)
+		for i, bj := range toBuild {
+			i, bj := i, bj
+			bwg.Add(1)
+			go func() {
+				defer bwg.Done()
+				bsem <- struct{}{}
+				defer func() { <-bsem }()
+				ri := bj.u.buildReplay(bj.o, cfg.ID, 8)
+				if bj.prefix != "" {
+					ri.Reason = strings.TrimSpace(bj.prefix + ri.Reason)
+				}
+				built[i] = ri
+			}()
+		}
+		bwg.Wait()
+		pending = append(pending, built...)
 	}
 	runReplays(pending)
 	for _, ri := range pending {
@@ -259,6 +317,10 @@ func cmdCheck(args []string) int {
 	sort.Strings(ext)
 	for _, s := range ext {
 		if strings.HasPrefix(s, "contract:") {
+			continue
+		}
+		if strings.HasPrefix(s, "db:") {
+			assumptions = append(assumptions, "A-sql: generated sqlc query treated as opaque (arbitrary well-typed result or error, no effect on the Go heap, does not panic): "+strings.TrimPrefix(s, "db:"))
 			continue
 		}
 		if strings.HasPrefix(s, "havoc:") {
